@@ -7,7 +7,13 @@
 //	TestFork   a call parks until the scheduler of the harness releases it with
 //	           nil or an error; the in-memory worker (a real node.Worker with
 //	           the shipped WorkerSchema) is started by a separate `connect`
-//	           step, i.e. after SetWorker like with a real process fork
+//	           step.  The two events of one fork are independent: `connect`
+//	           AFTER `fork` is the usual order (SetWorker, then WorkerForked);
+//	           `connect` while the call is still parked is a worker that is
+//	           faster than the fork seam (WorkerConnected / WorkerForked reach
+//	           the supervisor before SetWorker).  Ungated forks do the same
+//	           with probability EarlyPct: the seam returns only after the
+//	           supervisor has processed the worker's WorkerForked
 //	TestKill   records the request, stops the worker, returns; the confirmation
 //	           (WorkerKilled, which KillingWorkerState adds itself after
 //	           proc.Kill() when there is no seam) is a separate `killed` step
@@ -49,6 +55,12 @@ var (
 //	waitfork  wait until the I-th TestFork call is parked
 //	fork      release TestFork call I (Ok: return nil, else an error)
 //	connect   start the in-memory worker of fork I against its bootstrap address
+//	          (fork I released before: usual order; still parked: the worker
+//	          announces itself before SetWorker)
+//	econnany  connect the worker of a random fork call that is still parked
+//	dropboot  take the boot entry of fork I out of the map while its worker has
+//	          not connected: Add1(SetWorker, {WorkerAddr: boot}) without a
+//	          WorkerInfo, or (S = "killed") Add1(WorkerKilled, {LocalAddr: boot})
 //	ready     open the Ready gate of worker I and add Ready
 //	unready   remove Ready from worker I
 //	disc      stop worker I (crash / disconnect)
@@ -92,6 +104,9 @@ type Case struct {
 	// ungated forks: random delay (0..ForkDelayMs) and failure probability
 	ForkDelayMs int `json:"fork_delay_ms"`
 	ForkFailPct int `json:"fork_fail_pct"`
+	// ungated forks: probability that the worker announces itself before the
+	// TestFork call returns (a fork seam that is slow to return)
+	EarlyPct int `json:"early_pct"`
 	// ReadyGate: workers become Ready only on a `ready` step
 	ReadyGate bool  `json:"readygate"`
 	Seed      int64 `json:"seed"`
@@ -165,6 +180,7 @@ type forkGate struct {
 type wrk struct {
 	id        int
 	boot      string
+	forkedAt  time.Time // when TestFork was called for it (its bootstrap is a bit older)
 	w         *node.Worker
 	gate      atomic.Bool // Ready allowed
 	stopped   bool
@@ -484,7 +500,7 @@ func (r *run) testFork(addr string) error {
 	r.forks = append(r.forks, g)
 	n := len(r.forks)
 	r.forkId[n] = id
-	r.workers[id] = &wrk{id: id, boot: addr}
+	r.workers[id] = &wrk{id: id, boot: addr, forkedAt: time.Now()}
 	r.out.Forks = n
 	r.log(map[string]any{"ev": "fork", "f": n, "w": id})
 	r.cond.Broadcast()
@@ -500,14 +516,31 @@ func (r *run) testFork(addr string) error {
 		}
 	} else {
 		r.mu.Lock()
-		delay, fail := 0, false
+		delay, fail, early := 0, false, false
 		if r.c.ForkDelayMs > 0 {
 			delay = r.rng.Intn(r.c.ForkDelayMs + 1)
 		}
 		if r.c.ForkFailPct > 0 {
 			fail = r.rng.Intn(100) < r.c.ForkFailPct
 		}
+		if r.c.EarlyPct > 0 {
+			early = r.rng.Intn(100) < r.c.EarlyPct
+		}
+		from := len(r.seen)
+		if early {
+			r.log(map[string]any{"ev": "env", "i": -1, "k": "connect", "f": n, "n": 0,
+				"ok": true, "s": "early", "paused": false})
+		}
 		r.mu.Unlock()
+		if early {
+			// the process is up and dials its bootstrap before the seam returns;
+			// the seam returns when the supervisor has dealt with WorkerForked
+			if r.connect(id) == nil {
+				r.waitFor(1500*time.Millisecond, func() bool {
+					return r.ackSince(from, ssS.WorkerForked, "add", id, 1)
+				})
+			}
+		}
 		if delay > 0 {
 			select {
 			case <-time.After(time.Duration(delay) * time.Millisecond):
@@ -566,12 +599,25 @@ func (r *run) stopWorker(w *wrk) {
 	go nw.Stop(false)
 }
 
+// bootAlive: the bootstrap of a fork lives for ConnTimeout (bootstrap.StartState).
+// A worker started later would dial a closed port - or, all cases of a driver
+// process sharing the loopback interface, the port of somebody else's RPC server
+// (the library panics on the foreign schema: NetworkMachine.MustParseStates).  For
+// the supervisor a worker that comes too late is a worker that never connects.
+func (r *run) bootAlive(w *wrk) bool {
+	return time.Since(w.forkedAt) < time.Duration(r.c.ConnMs-100)*time.Millisecond
+}
+
 func (r *run) connect(id int) error {
 	r.mu.Lock()
 	w := r.workers[id]
 	if w == nil || w.w != nil || w.stopped {
 		r.mu.Unlock()
 		return fmt.Errorf("no fork %d to connect", id)
+	}
+	if !r.bootAlive(w) {
+		r.mu.Unlock()
+		return fmt.Errorf("the bootstrap of fork %d has expired", id)
 	}
 	r.mu.Unlock()
 	kind := "k" + r.c.Label
@@ -686,7 +732,9 @@ func (r *run) exec(i int, op Op) (stuck string) {
 			ok := false
 			switch base {
 			case "conn":
-				ok = g.done && w.w == nil && !w.stopped && g.ok
+				ok = g.done && w.w == nil && !w.stopped && g.ok && r.bootAlive(w)
+			case "econn":
+				ok = !g.done && len(g.rel) == 0 && w.w == nil && !w.stopped && r.bootAlive(w)
 			case "err", "disc", "ready", "unready", "work":
 				ok = w.w != nil && !w.stopped && w.w.LocalAddr != ""
 			case "killed":
@@ -706,7 +754,7 @@ func (r *run) exec(i int, op Op) (stuck string) {
 			return "" // nothing to apply it to (not a miss: dynamic)
 		}
 		op.I = pick
-		if base == "conn" {
+		if base == "conn" || base == "econn" {
 			op.K = "connect"
 		} else {
 			op.K = base
@@ -875,6 +923,26 @@ func (r *run) exec(i int, op Op) (stuck string) {
 		r.s.Mach.Add1(ssS.WorkerKilled, node.Pass(&node.A{LocalAddr: w.w.LocalAddr}))
 		if !r.waitFor(to, func() bool { return r.ackSince(from, ssS.WorkerKilled, "add", id, 1) }) {
 			r.miss("step %d: WorkerKilled not seen", i)
+		}
+
+	case "dropboot":
+		id := wid()
+		r.mu.Lock()
+		w := r.workers[id]
+		r.mu.Unlock()
+		if w == nil || w.w != nil {
+			r.miss("step %d: no booting worker %d", i, op.I)
+			return
+		}
+		st := ssS.SetWorker
+		if op.S == "killed" {
+			st = ssS.WorkerKilled
+			r.s.Mach.Add1(st, node.Pass(&node.A{LocalAddr: w.boot}))
+		} else {
+			r.s.Mach.Add1(st, node.Pass(&node.A{WorkerAddr: w.boot}))
+		}
+		if !r.waitFor(to, func() bool { return r.ackSince(from, st, "add", id, 1) }) {
+			r.miss("step %d: %s for the boot entry of %d not seen", i, st, op.I)
 		}
 
 	case "hb":
